@@ -18,6 +18,10 @@ user Sequence, shared row objects), S structured instances of 17..257 rows with 
 construction, O `minimize` given as 0/1, A input-not-modified + repeated / interleaved calls on one object,
 H event-directed search with an instrumented reference port (long augmenting paths, all matched columns
 visited, negative first delta, slack relaxations that improve a finite slack, ties).
+Round 3: W work volume (product-form c_ij = a_i*b_j with increasing a, b: n(n+1)/2 rounds of the inner while loop, optimum by
+the rearrangement inequality; 1 x n / n x 1; crossing 2^7 .. 10^5 rounds), A2 in-place edits of the caller's list between two
+calls (set entry, replace row, append / pop row or column) compared with a fresh deep copy, helpers.assignment_cost on the
+same objects, X float extremes (-0.0, +-2^56 + k*2^8 cancellation, ~1e308 overflow, +-inf, NaN).
 """
 import itertools
 import json
@@ -227,6 +231,194 @@ def structured_cases(rng, big):
     return out
 
 
+# ---------------------------------------------------------------- round 3: W work volume, A2 in-place edits, X float extremes
+def _increasing(rng, n):
+    x, c = [], rng.randint(1, 3)
+    for _ in range(n):
+        x.append(c)
+        c += rng.randint(1, 3)
+    return x
+
+
+def gen_work(rng, nr, nc, minimize, coq=False, plain=False):
+    """W: product-form costs c_ij = a_i * b_j with strictly increasing positive a, b.  The e-maxx loop needs i rounds for row i
+    (n(n+1)/2 in total, long augmenting paths); by the rearrangement inequality the unique minimum pairs the largest a with the
+    smallest b (using the nr smallest columns) and the unique maximum pairs them in order (using the largest columns)."""
+    if nr > nc:   # transpose of the nr <= nc construction
+        c = gen_work(rng, nc, nr, minimize, coq, plain)
+        t = c["num"]
+        num = [[t[i][j] for i in range(nc)] for j in range(nr)]
+        assign = [-1] * nr
+        for i, j in enumerate(c["expect_assign"]):
+            assign[j] = i
+        return dict(c, num=num, expect_assign=assign)
+    a = list(range(1, nr + 1)) if plain else _increasing(rng, nr)
+    b = list(range(1, nc + 1)) if plain else _increasing(rng, nc)
+    num = [[a[i] * b[j] for j in range(nc)] for i in range(nr)]
+    assign = [nr - 1 - i for i in range(nr)] if minimize else [nc - nr + i for i in range(nr)]
+    c = {"num": num, "shift": 0, "minimize": minimize, "as_float": rng.random() < 0.5, "kind": "W:product",
+         "expect_opt": sum(num[i][assign[i]] for i in range(nr)), "expect_assign": assign, "big": True, "timeout": 120.0}
+    if not coq:
+        c["nocoq"] = True
+    return c
+
+
+def gen_work_line(rng, n, row, minimize):
+    """W: 1 x n / n x 1 (padding to n x n makes the loop do n(n+1)/2 rounds); distinct entries, optimum = min / max entry."""
+    vals = rng.sample(range(-3 * n, 3 * n), n)
+    best = vals.index(min(vals) if minimize else max(vals))
+    if row:
+        num, assign = [vals], [best]
+    else:
+        num = [[x] for x in vals]
+        assign = [-1] * n
+        assign[best] = 0
+    return {"num": num, "shift": 0, "minimize": minimize, "as_float": rng.random() < 0.5, "kind": "W:line", "expect_opt": vals[best],
+            "expect_assign": assign, "big": True, "timeout": 120.0, "nocoq": True}
+
+
+def work_cases(rng, big):
+    out = [gen_work(rng, 16, 16, True, coq=True), gen_work(rng, 16, 16, False, coq=True), gen_work(rng, 12, 30, rng.random() < 0.5, coq=True),
+           gen_work(rng, 30, 12, rng.random() < 0.5, coq=True)]
+    for n in (46, 64, 91, 142):                       # 1081, 2080, 4186, 10153 rounds
+        out.append(gen_work(rng, n, n, rng.random() < 0.5, plain=rng.random() < 0.3))
+    out.append(gen_work(rng, 60, 142, True))
+    out.append(gen_work(rng, 142, 60, rng.random() < 0.5))
+    out.append(gen_work_line(rng, 142, True, rng.random() < 0.5))
+    out.append(gen_work_line(rng, 142, False, rng.random() < 0.5))
+    mz = rng.random() < 0.5
+    out.append(gen_work(rng, 450, 450, mz, plain=rng.random() < 0.5))            # 101475 rounds, ~8 s
+    if big:
+        out.append(gen_work(rng, 450, 450, not mz))
+        out.append(gen_work(rng, 640, 640, rng.random() < 0.5))                  # 205120 rounds
+        out.append(gen_work_line(rng, 450, True, rng.random() < 0.5))
+        out.append(gen_work_line(rng, 450, False, rng.random() < 0.5))
+        out.append(gen_work(rng, 300, 450, rng.random() < 0.5))
+    return out
+
+
+def gen_edit(rng):
+    """A2: the judged call is the SECOND one on a list that was changed in place after a first call."""
+    c = gen_case(rng)
+    while not c["num"] or not c["num"][0]:
+        c = gen_case(rng)
+    num = c["num"]
+    nr, nc = len(num), len(num[0])
+    ops = ["set", "set", "setrow", "append_row", "pop_row", "append_col", "pop_col"]
+    if nr < 2:
+        ops = [o for o in ops if o != "append_row"]
+    if nc < 2:
+        ops = [o for o in ops if o != "append_col"]
+    op = rng.choice(ops)
+    lo, hi = min(min(r) for r in num) - 3, max(max(r) for r in num) + 3
+    if op == "set":
+        c["edit"] = ["set", rng.randrange(nr), rng.randrange(nc), rng.randint(lo, hi)]
+    elif op == "setrow":
+        c["edit"] = ["setrow", rng.randrange(nr), [rng.randint(lo, hi) for _ in range(nc)]]
+    elif op == "pop_row":
+        c["edit"] = ["pop_row", [rng.randint(lo, hi) for _ in range(nc)]]
+    elif op == "pop_col":
+        c["edit"] = ["pop_col", [rng.randint(lo, hi) for _ in range(nr)]]
+    else:
+        c["edit"] = [op]
+    c["container"] = "list"
+    if rng.random() < 0.4:
+        c["seq"] = "plain"
+    c["kind"] = "A2:" + op
+    return c
+
+
+def _frepr(x):
+    return repr(float(x))
+
+
+def gen_extreme(rng):
+    """X: float extremes."""
+    nr, nc = _shape(rng, 4)
+    fam = rng.choice(["negzero", "cancel", "cancel", "huge", "big300", "big300", "inf", "inf", "nan"])
+    mz = rng.random() < 0.5
+    if fam == "negzero":      # exact: -0.0 is the number 0
+        pool = [-0.0, 0.0, -0.0, 1.0, -1.0]
+        vals = [[rng.choice(pool) for _ in range(nc)] for _ in range(nr)]
+        return {"num": [[int(x) for x in r] for r in vals], "floats": [[_frepr(x) for x in r] for r in vals], "shift": 0, "minimize": mz,
+                "as_float": True, "kind": "X:negzero"}
+    if fam == "cancel":       # exact: +-2^56 + k*2^8 next to small multiples of 2^8 - every path sum is a multiple of 2^8 below 2^61
+        num = [[rng.choice([2**56, -2**56, 0, 0]) + 256 * rng.randint(-4, 4) for _ in range(nc)] for _ in range(nr)]
+        return {"num": num, "shift": 0, "minimize": mz, "as_float": rng.choice([True, False, "mixed"]), "kind": "X:cancel"}
+    if fam == "huge":         # finite, but sums / max_val - c overflow to inf
+        pool = [1e308, -1e308, 1.7e308, -1.7e308, 2.0**1023, 1.0, 0.0, -1.0, 5e307]
+    elif fam == "big300":     # huge and tiny, no overflow possible with <= 8 terms
+        pool = [1e300, -1e300, 3e300, 2.5e299, 1e-300, -1e-300, 5e-324, 1.0, 0.0, -2.0]
+    elif fam == "inf":
+        sign = rng.choice([1, -1])
+        pool = [sign * float("inf")] * 2 + [0.0, 1.0, 2.0, -3.0, 5.0]
+    else:
+        pool = [float("nan")] + [0.0, 1.0, 2.0, -3.0, 5.0] * rng.choice([1, 1, 0])
+    vals = [[rng.choice(pool) for _ in range(nc)] for _ in range(nr)]
+    return {"num": [[0] * nc for _ in range(nr)], "floats": [[_frepr(x) for x in r] for r in vals], "shift": 0, "minimize": mz, "as_float": True,
+            "kind": "X:" + fam, "xkind": fam, "nocoq": True}
+
+
+def observation_only(case):
+    """POLICY_X: (a) NaN / inf entries, (b) finite entries so large that the algorithm's own sums overflow, (c) integer inputs whose exact
+    sums do not fit in 2^53 for this float-by-design API - generated, run under the guard, counted, never judged."""
+    return case.get("xkind") in ("huge", "inf", "nan") or case["kind"].startswith("Mx:int_")
+
+
+def oracle_extreme(case, out, a):
+    """Non-finite / overflowing inputs: the call must return, the result must be a matching (checked by the caller), the objective
+    must be the float sum of the chosen entries, and - where the extended-real value of every matching is defined - optimal."""
+    import math
+    vals = [[float(x) for x in r] for r in case["floats"]]
+    nr, nc = len(vals), len(vals[0])
+    fsum = 0.0
+    for i, x in enumerate(a):
+        if x != -1:
+            fsum += vals[i][x]
+    obj = float(out["objective"])
+    if not (obj == fsum or (obj != obj and fsum != fsum)):
+        # an overflowed running sum may differ from the exact one: accept the exact rational sum within 1e-9 relative as well
+        ok = False
+        if all(math.isfinite(vals[i][x]) for i, x in enumerate(a) if x != -1) and math.isfinite(obj):
+            ex = sum(Fraction(vals[i][x]) for i, x in enumerate(a) if x != -1)
+            ok = abs(Fraction(obj) - ex) <= abs(ex) / 10**9
+        if not ok:
+            return ("objective", f"objective {out['objective']} is not the sum of the chosen entries ({fsum!r})")
+    if any(x != x for r in vals for x in r):
+        return None                                  # NaN: no order, optimality undefined
+
+    def ext(assign_pairs):
+        pos = sum(1 for i, j in assign_pairs if vals[i][j] == math.inf)
+        neg = sum(1 for i, j in assign_pairs if vals[i][j] == -math.inf)
+        if pos and neg:
+            return None
+        if pos:
+            return (1, Fraction(0))
+        if neg:
+            return (-1, Fraction(0))
+        return (0, sum((Fraction(vals[i][j]) for i, j in assign_pairs), Fraction(0)))
+
+    small = min(nr, nc)
+    best = None
+    if nr <= nc:
+        cands = ([(i, perm[i]) for i in range(nr)] for perm in itertools.permutations(range(nc), small))
+    else:
+        cands = ([(perm[j], j) for j in range(nc)] for perm in itertools.permutations(range(nr), small))
+    for pairs in cands:
+        e = ext(pairs)
+        if e is None:
+            return None                              # inf - inf somewhere: undefined
+        key = e if case["minimize"] else (-e[0], -e[1])
+        if best is None or key < best:
+            best = key
+    mine = ext([(i, x) for i, x in enumerate(a) if x != -1])
+    mine = mine if case["minimize"] else (-mine[0], -mine[1])
+    scale = max([Fraction(1)] + [abs(Fraction(x)) for r in vals for x in r if math.isfinite(x)])
+    if mine[0] != best[0] or abs(mine[1] - best[1]) > scale * (nr + nc) / 10**9:
+        return ("optimal", f"the chosen entries sum to {fsum!r}; a better matching exists (extended-real comparison, tolerance 1e-9 relative)")
+    return None
+
+
 # ---------------------------------------------------------------- H: instrumented reference port (events only; it judges nothing)
 def port_events(num, minimize):
     """A direct port of the e-maxx loop on exact integers that reports rare internal events."""
@@ -303,6 +495,8 @@ def port_events(num, minimize):
             j0 = j1
             plen += 1
         hit("path", plen)
+        ev["augment_total"] = ev.get("augment_total", 0) + plen
+        ev["rounds_total"] = ev.get("rounds_total", 0) + rounds
     hit("rematch", max(rematch))
     return ev
 
@@ -310,6 +504,8 @@ def port_events(num, minimize):
 def event_keys(ev):
     ks = set()
     for k, val in ev.items():
+        if k in ("augment_total", "rounds_total"):
+            continue
         if k in ("path", "rounds", "rounds_all", "zero_deltas", "improves", "rematch"):
             for t in range(3, min(val, 9) + 1):
                 ks.add(f"{k}>={t}")
@@ -409,10 +605,16 @@ def fixed_cases():
 
 # ---------------------------------------------------------------- the implementation
 def _values(case):
+    if "floats" in case:                                   # X: explicit floats (reprs), incl. -0.0, inf, nan
+        return [[float(x) for x in row] for row in case["floats"]]
+    return _values_of(case, case["num"])
+
+
+def _values_of(case, num):
     sh = case["shift"]
     af = case.get("as_float", False)
     rows = []
-    for i, row in enumerate(case["num"]):
+    for i, row in enumerate(num):
         if sh:
             rows.append([x / (1 << sh) for x in row])            # correctly rounded; exact when representable
         elif af == "mixed":
@@ -503,14 +705,68 @@ def call_impl(case):
     def obs(r):
         return {"solution": r.solution, "objective": r.objective, "iterations": r.iterations, "status": getattr(r.status, "name", str(r.status))}
 
-    inp = to_input(case)
-    snap = _snapshot(inp)
     notes = []
-    if case.get("seq") == "flipped_first":
+    if "edit" in case:
+        # A2: call on the matrix BEFORE the edit, change the caller's list in place, call again (this second answer is the one judged)
+        final = _values(case)
+        op = case["edit"]
+        pre = [list(r) for r in final]
+        if op[0] == "set":
+            pre[op[1]][op[2]] = _values_of(case, [[op[3]]])[0][0]
+        elif op[0] == "setrow":
+            pre[op[1]] = _values_of(case, [op[2]])[0]
+        elif op[0] == "append_row":
+            pre.pop()
+        elif op[0] == "pop_row":
+            pre.append(_values_of(case, [op[1]])[0])
+        elif op[0] == "append_col":
+            for r in pre:
+                r.pop()
+        elif op[0] == "pop_col":
+            col = _values_of(case, [op[1]])[0]
+            for r, x in zip(pre, col):
+                r.append(x)
+        inp = pre
+        solve_hungarian(inp, minimize=mz)
+        if case.get("seq"):
+            solve_hungarian(inp, minimize=not mz)
+        if op[0] == "set":
+            inp[op[1]][op[2]] = final[op[1]][op[2]]
+        elif op[0] == "setrow":
+            inp[op[1]] = list(final[op[1]])
+        elif op[0] == "append_row":
+            inp.append(list(final[-1]))
+        elif op[0] == "pop_row":
+            inp.pop()
+        elif op[0] == "append_col":
+            for r, fr in zip(inp, final):
+                r.append(fr[-1])
+        elif op[0] == "pop_col":
+            for r in inp:
+                r.pop()
+        assert [[repr(x) for x in r] for r in inp] == [[repr(x) for x in r] for r in final]
+    else:
+        inp = to_input(case)
+    snap = _snapshot(inp)
+    if case.get("seq") == "flipped_first" and "edit" not in case:
         solve_hungarian(inp, minimize=not mz)
     v = obs(solve_hungarian(inp, minimize=mz))
     if _snapshot(inp) != snap:
         notes.append(("aliasing", "the caller's cost_matrix was modified by the call"))
+    if "edit" in case:
+        fresh = obs(solve_hungarian([list(r) for r in inp], minimize=mz))
+        if (fresh["solution"], repr(fresh["objective"])) != (v["solution"], repr(v["objective"])):
+            notes.append(("call-sequence", f"after the in-place edit {case['edit'][0]} of the caller's matrix the answer is {v['solution']} / {v['objective']!r} "
+                                           f"but a fresh deep copy gives {fresh['solution']} / {fresh['objective']!r}"))
+    if not case.get("big") and not case.get("inexact") and "floats" not in case and case.get("container", "list") in ("list", "tuple", "list_of_tuples", "shared") \
+            and isinstance(v["solution"], list):
+        from solvor.utils import assignment_cost
+        try:
+            ac = assignment_cost(inp, v["solution"])
+        except Exception as e:  # noqa: BLE001
+            ac = f"{type(e).__name__}: {e}"
+        if ac != v["objective"]:
+            notes.append(("helpers", f"solvor.utils.assignment_cost(cost_matrix, solution) = {ac!r} but the reported objective is {v['objective']!r}"))
     if not case.get("big"):
         again = obs(solve_hungarian(inp, minimize=mz))                       # same object, second call
         if (again["solution"], repr(again["objective"])) != (v["solution"], repr(v["objective"])):
@@ -611,6 +867,8 @@ def oracle(case, out, enum_limit=6):
         return ("count", f"{len(cols)} rows assigned, expected min(rows, cols) = {min(nr, nc)}: {a}")
     for clause, what in out.get("notes") or []:
         return (clause, what)
+    if case.get("xkind"):
+        return oracle_extreme(case, out, a)
     s = sum(num[i][x] for i, x in enumerate(a) if x != -1)
     unit = 1 << case["shift"]
     kind = "minimum" if case["minimize"] else "maximum"
@@ -654,7 +912,7 @@ def shrink(case, enum_limit, budget_s=20.0):
         return oracle(c, run_one(c), enum_limit) is not None
 
     cur = case
-    changed = "expect_opt" not in case
+    changed = "expect_opt" not in case and "floats" not in case and "edit" not in case
     while changed:
         changed = False
         num = cur["num"]
@@ -725,7 +983,7 @@ def _corpus():
             o = json.loads(f.read_text())
             c = {"num": o["num"], "shift": o.get("shift", 0), "minimize": o.get("minimize", True),
                  "as_float": o.get("as_float", False), "kind": "corpus:" + f.stem}
-            for k in ("container", "inexact", "nocoq", "seq"):
+            for k in ("container", "inexact", "nocoq", "seq", "floats", "xkind", "edit"):
                 if k in o:
                     c[k] = o[k]
             out.append(c)
@@ -768,6 +1026,13 @@ def run(ctx: Ctx):
         "structured large instances: optimum (and the unique optimal assignment) known by construction c_ij = a_i + b_j + e_ij, e = 0 on the "
         "planted matching, e >= 1 elsewhere; sizes above 40 are not sent to Coq.",
         "the instrumented port used for event-directed generation judges nothing; its cases go through the same oracle and correspondence.",
+        "work volume: product-form matrices a_i*b_j (a, b increasing; optimum by the rearrangement inequality) and 1 x n / n x 1 make the inner "
+        "while loop run n(n+1)/2 times; quick reaches 101475 rounds (n = 450), thorough 205120 (n = 640); 2^20 rounds (n = 1448) and 2^10 rounds "
+        "for a single row (n = 1024) cost minutes of pure-Python time and are not run; coverage.work_max_per_loop has the counts reached.",
+        "float extremes: -0.0 and +-2^56+k*2^8 cancellation are exact (full oracle and Coq); values up to 3e300 next to 1e-300 and decimal floats "
+        "are judged with the 1e-9 tolerance. OBSERVATION-ONLY (coordinator policy X a-c, outside the property: data is finite and of moderate "
+        "magnitude): NaN / +-inf entries, entries near 1e308 whose internal sums overflow, Python ints beyond 2^53 whose sums are not exact in "
+        "binary64 - these are run under the guard (a hang is cut after 1 s) and only counted in histogram observation_only.",
     ]
     ctx.proof_step(["C10"])
 
@@ -782,8 +1047,15 @@ def run(ctx: Ctx):
     for k, c in enumerate(cases):          # A: interleaved calls with the other option value on every third small case
         if "seq" not in c and not c.get("big") and k % 3 == 0:
             c["seq"] = "plain" if k % 2 else "flipped_first"
-    cases += structured_cases(ctx.rng, big)
+    cases += [gen_edit(ctx.rng) for _ in range(ctx.budget(80, 800))]
+    cases += [gen_extreme(ctx.rng) for _ in range(ctx.budget(70, 500))]
+    heavy = structured_cases(ctx.rng, big) + work_cases(ctx.rng, big)
+    step = max(9, len(cases) // (len(heavy) + 1))        # spread the heavy cases over the worker chunks (pmap chunksize 8)
+    for k, c in enumerate(sorted(heavy, key=lambda c: -len(c["num"]) * len(c["num"][0]) * max(len(c["num"]), len(c["num"][0])))):
+        cases.insert(min(len(cases), k * step), c)
     results = pmap(judge, [(c, enum_limit) for c in cases])
+    work = {"outer_for": 0, "inner_while_total": 0, "scan_for_total": 0, "update_for_total": 0, "augment_while_total": 0, "augment_while_single": 0,
+            "inner_while_single_row": 0}
 
     coq_cases, metas = [], []
     spec_cases = []
@@ -800,7 +1072,25 @@ def run(ctx: Ctx):
         ctx.count("numbers", "inexact" if case.get("inexact") else ("float" if case["shift"] else str(case.get("as_float"))))
         ctx.count("call_sequence", case.get("seq", "twice") if not case.get("big") else "once")
         ctx.count("outcome", out["outcome"] if out["outcome"] != "ok" else out.get("status"))
-        if bad:
+        if out["outcome"] == "ok":                    # W: work volume actually reached, per loop
+            n_ = max(nr, nc)
+            it = out["iterations"]
+            work["outer_for"] = max(work["outer_for"], n_)
+            work["inner_while_total"] = max(work["inner_while_total"], it)
+            work["scan_for_total"] = max(work["scan_for_total"], it * n_)
+            work["update_for_total"] = max(work["update_for_total"], it * (n_ + 1))
+            for t in (2**7, 2**10, 2**11, 2**12, 10**4, 10**5):
+                if it >= t:
+                    ctx.count("inner_while_rounds_at_least", t)
+            if case["kind"].startswith("W:") and n_ <= 150:
+                ev = port_events(num, case["minimize"])
+                work["augment_while_total"] = max(work["augment_while_total"], ev.get("augment_total", 0))
+                work["augment_while_single"] = max(work["augment_while_single"], ev.get("path", 0))
+                work["inner_while_single_row"] = max(work["inner_while_single_row"], ev.get("rounds", 0))
+        if observation_only(case):
+            # POLICY_X (a)-(c): outside the property; the call may return anything, raise, or be cut by the guard - only counted
+            ctx.count("observation_only", f"{case['kind']}:{out['outcome']}" + (":" + bad[0] if bad and out["outcome"] == "ok" else ""))
+        elif bad:
             if len(ctx.violations) >= 5:
                 ctx.count("violations_not_listed", bad[0])
             else:
@@ -822,6 +1112,7 @@ def run(ctx: Ctx):
         coq_cases.append(coq_case(case, out))
         metas.append((case, out))
         spec_cases.append(coq_case(case, out))
+    ctx.extra["work_max_per_loop"] = work
     failing = ctx.coq_check("corr", IMPORTS, CASE_T, CHK_MODEL, coq_cases)
     ctx.traces_validated += len(coq_cases) - len(failing)
     spec_failing = ctx.coq_check("spec", IMPORTS, CASE_T, CHK_SPEC, spec_cases)
